@@ -7,6 +7,7 @@
 -/
 import Jqawk.Model.Cli
 import Jqawk.Lemmas.SelectorRun
+import Jqawk.Lemmas.ParserWF
 
 namespace Jqawk.C14
 open Jqawk Cli
@@ -247,22 +248,36 @@ open Sel in
     (`JRel`): the same error (class and message; position and text differ by construction), or
     both succeed and the main evaluators are related again by a new renaming under which the
     root cell of run A corresponds to the `$` cell of run B — so that everything the program does
-    afterwards with `$`, its members (sharing included) and `-o` is the same.  `E` is a
-    container-free selector (`selE`): `$`, literals, member / index steps, operators other than
-    assignment and `++`/`--`, `match` with expression bodies. -/
-theorem selector_step (prog : Program) (T : SelTok) (E : Expr) (hE : selE E = true) (tbl : RuleTable)
+    afterwards with `$`, its members (sharing included) and `-o` is the same.
+
+    `E` is a selector of the class `selX (fun _ => false)`: `$` (the only identifier), literals,
+    member / index steps, array and object literals (`[$.a, $.b]`, `{k: $.x}`), method calls
+    (`$.pluck("a")`, `$.result.sort()`, `.length()`, `.upper()`, `.split(..)`, … — every native
+    method, `push`/`pop` on arrays of the document included), operators other than assignment
+    and `++`/`--`, `match` with expression bodies; `E` comes from the parser (`TblOK tbl`, used
+    for `E.wfB`).
+
+    What makes the containers created by `E` harmless (`Sel.allPl`, `Sel.junction_heap`): in run
+    B their member cells live in the main heap next to the `$` cell, which the rule then
+    overwrites; the proof shows that member cells of containers created by `E` are never the `$`
+    cell and hold plain values or containers only (`Sel.MPH`), and that everything that existed
+    before `E` ran — cells, arrays and objects of the document — is untouched or changed alike
+    (`Sel.Froz`). -/
+theorem selector_step (prog : Program) (T : SelTok) (E : Expr) (hE : selX (fun _ => false) E = true)
+    (tbl : RuleTable) (htbl : TblOK tbl)
     (sel : Bytes) (hparse : parseExpressionSrc tbl sel = .ok E) (v : JVal) {K : Ctx} (wf : K.WF)
     (h0 : K.a0 = 0) (h0' : K.o0 = 0) (hKA : K.progA = prog) (hKB : K.progB = withSel prog T E)
     {sA sB : St} (hs : SR (mainX K) sA sB) (hlen : sB.frames.length = 1) :
     JRel prog (withSel prog T E) sel (evalSelector tbl sel v sA) (ruleStep (withSel prog T E) T E v sB) :=
-  junction prog T E hE tbl sel hparse v wf h0 h0' hKA hKB hs hlen
+  junction prog T E hE (parseExpressionSrc_wf htbl sel E hparse) tbl sel hparse v wf h0 h0' hKA hKB hs hlen
 
 open Sel in
 /-- **Whole runs: `-r E` behaves as `BEGINFILE { $ = E }`.**  For every program `prog` whose
     ENDFILE rules (and, if it has any, the functions they might call) do not read `$`
     (`EndOK`; BEGINFILE rules and pattern rules are unrestricted — they see the selected value in
-    both runs), every container-free selector `E`, all input files: unless one of the runs is out
-    of fuel,
+    both runs), every selector `E` of the class described at `selector_step` (container-creating
+    selectors and method calls included; identifiers other than `$` — the builtins `num`,
+    `json`, `printf` too — excluded), all input files: unless one of the runs is out of fuel,
     * the outcome is of the same class with the same message (`OutcomeRel`: a runtime error in
       the selector is reported against the selector text by run A, against the program text by
       run B);
@@ -273,7 +288,22 @@ open Sel in
     cannot be copied (`-r '$.s.length'`), Go's message ends in the tag of the *target* cell —
     "cannot copy a nativefunction to a unknown" with `-r` (a fresh root cell), "… to a object"
     with the rule (the `$` cell still holds the document); class, exit status and output agree. -/
-theorem r_behaves_as_beginfile_rule (tbl : RuleTable) (prog : Program) (T : SelTok) (E : Expr) (sel src : Bytes)
+theorem r_behaves_as_beginfile_rule (tbl : RuleTable) (htbl : TblOK tbl) (prog : Program) (T : SelTok)
+    (E : Expr) (sel src : Bytes)
+    (files : List InputFile) (hparse : parseExpressionSrc tbl sel = .ok E)
+    (hE : selX (fun _ => false) E = true) (hend : EndOK prog) :
+    let rA := runProgram prog src tbl [sel] files
+    let rB := runProgram (withSel prog T E) src tbl [] files
+    rA.outcome = .oof ∨ rB.outcome = .oof ∨
+      (OutcomeRel sel src rA.outcome rB.outcome ∧ rA.out = rB.out ∧
+        (rA.outcome = .ok → rA.st.bind getRootJson = rB.st.bind getRootJson)) :=
+  runProgram_rel prog T E hE (parseExpressionSrc_wf htbl sel E hparse) tbl sel hparse src hend files
+
+open Sel in
+/-- the container-free selectors (`selE`: `$`, literals, member / index steps, operators,
+    `match`) of the first version of this theorem are a special case -/
+theorem r_behaves_as_beginfile_rule_path (tbl : RuleTable) (htbl : TblOK tbl) (prog : Program) (T : SelTok)
+    (E : Expr) (sel src : Bytes)
     (files : List InputFile) (hparse : parseExpressionSrc tbl sel = .ok E) (hE : selE E = true)
     (hend : EndOK prog) :
     let rA := runProgram prog src tbl [sel] files
@@ -281,20 +311,21 @@ theorem r_behaves_as_beginfile_rule (tbl : RuleTable) (prog : Program) (T : SelT
     rA.outcome = .oof ∨ rB.outcome = .oof ∨
       (OutcomeRel sel src rA.outcome rB.outcome ∧ rA.out = rB.out ∧
         (rA.outcome = .ok → rA.st.bind getRootJson = rB.st.bind getRootJson)) :=
-  runProgram_rel prog T E hE tbl sel hparse src hend files
+  r_behaves_as_beginfile_rule tbl htbl prog T E sel src files hparse (selE_selX _ E hE) hend
 
 open Sel in
 /-- … and therefore the command line ends alike: same exit status, same standard output, a
     diagnostic in the same cases, and `-o` writes the same bytes to the same file (or after the
     output for `-o -`). -/
-theorem r_behaves_as_beginfile_rule_cli (tbl : RuleTable) (prog : Program) (T : SelTok) (E : Expr)
+theorem r_behaves_as_beginfile_rule_cli (tbl : RuleTable) (htbl : TblOK tbl) (prog : Program) (T : SelTok)
+    (E : Expr)
     (sel src : Bytes) (files : List InputFile) (hparse : parseExpressionSrc tbl sel = .ok E)
-    (hE : selE E = true) (hend : EndOK prog) (fs : List Entry) (o : Opts) (n : Nat)
+    (hE : selX (fun _ => false) E = true) (hend : EndOK prog) (fs : List Entry) (o : Opts) (n : Nat)
     (hA : (runProgram prog src tbl [sel] files).outcome ≠ .oof)
     (hB : (runProgram (withSel prog T E) src tbl [] files).outcome ≠ .oof) :
     finish fs o n (runProgram prog src tbl [sel] files) =
       finish fs o n (runProgram (withSel prog T E) src tbl [] files) := by
-  have h := r_behaves_as_beginfile_rule tbl prog T E sel src files hparse hE hend
+  have h := r_behaves_as_beginfile_rule tbl htbl prog T E sel src files hparse hE hend
   rcases h with h | h | ⟨h1, h2, h3⟩
   · exact absurd h hA
   · exact absurd h hB
@@ -341,21 +372,53 @@ def doc1 : InputFile :=
   ⟨b!"f", b!"{\"status\":\"ok\",\"result\":[{\"name\":\"a\"},{\"name\":\"b\"}],\"a\":{\"k\":1},\"s\":\"hello\",\"n\":3.7}", .eof⟩
 
 /-- the hypotheses of `r_behaves_as_beginfile_rule` hold for the README's example: the selector
-    `$.result` parses to a container-free selector, the program has no ENDFILE rule -/
+    `$.result` parses to a (container-free) selector of the class, the program has no ENDFILE rule -/
 example : (match parseExpressionSrc expectedRuleTable b!"$.result" with
-      | .ok e => Sel.selE e | _ => false) = true ∧
+      | .ok e => Sel.selE e && Sel.selX (fun _ => false) e | _ => false) = true ∧
     (match parseProgramSrc expectedRuleTable b!"{ print $.name }" with
       | .ok p => endOKB p | _ => false) = true := by decide +kernel
 
 /-- … also with operators, index steps, `match`, and an ENDFILE rule that does not read `$` -/
 example : (match parseExpressionSrc expectedRuleTable b!"match ($.n) { 3.7 => $.result[0].name + \"x\", y => $.a.k * 2 }" with
-      | .ok e => Sel.selE e | _ => false) = true ∧
+      | .ok e => Sel.selE e && Sel.selX (fun _ => false) e | _ => false) = true ∧
     (match parseProgramSrc expectedRuleTable b!"function f(x) { return x + 1 } { print f($) } ENDFILE { print \"end\" }" with
       | .ok p => endOKB p | _ => false) = true := by decide +kernel
 
 /-- the README's pair of command lines, as texts: same outcome, output and `-o` document -/
 example : obs (evalProgram expectedRuleTable b!"{ print $.name }" [b!"$.result"] [doc1]) =
     obs (evalProgram expectedRuleTable b!"BEGINFILE { $ = $.result } { print $.name }" [] [doc1]) := by
+  decide +kernel
+
+/-- container-creating selectors and method calls are in the class … -/
+example : ([b!"[$.a, $.s]", b!"{k: $.n, \"r\": $.result}", b!"$.pluck(\"s\", \"a\")", b!"$.result.sort()",
+      b!"$.s.length()", b!"$.s.upper()", b!"$.s.split(\"l\")", b!"[$.result.length(), {x: [$.a]}]",
+      b!"$.a.keys()", b!"match ($.s.upper()) { \"HELLO\" => [$.n], y => $ }"].all (fun sel =>
+    match parseExpressionSrc expectedRuleTable sel with
+    | .ok e => Sel.selX (fun _ => false) e | _ => false)) = true := by decide +kernel
+
+/-- … and the two command lines agree on them (outcome, output, `-o` document): an array
+    literal whose members share containers of the document (each member is a record; the
+    object `$.a` occurs twice, so the change made at the first record shows at the third) -/
+example : obs (evalProgram expectedRuleTable b!"{ print $; $.x = 1 }" [b!"[$.a, $.result[0], $.a]"] [doc1]) =
+    obs (evalProgram expectedRuleTable b!"BEGINFILE { $ = [$.a, $.result[0], $.a] } { print $; $.x = 1 }" [] [doc1]) ∧
+    (obs (evalProgram expectedRuleTable b!"{ print $; $.x = 1 }" [b!"[$.a, $.result[0], $.a]"] [doc1])).2.1 =
+      b!"{\"k\": 1}\n{\"name\": \"a\"}\n{\"k\": 1, \"x\": 1}\n" := by
+  decide +kernel
+
+/-- … an object literal and `pluck` (for `sort` the model uses `List.mergeSort`, which the kernel
+    does not evaluate; the pair `-r '[$.s, "b", $.status].sort()'` / `BEGINFILE { $ = … }` was
+    compared on the binary and with `jqmodel`: `b`, `hello`, `ok` on three lines, both) -/
+example : obs (evalProgram expectedRuleTable b!"{ print $ }" [b!"{k: $.a.k, \"r\": $.pluck(\"s\", \"a\")}"] [doc1]) =
+    obs (evalProgram expectedRuleTable b!"BEGINFILE { $ = {k: $.a.k, \"r\": $.pluck(\"s\", \"a\")} } { print $ }" [] [doc1]) ∧
+    (obs (evalProgram expectedRuleTable b!"{ print $ }" [b!"{k: $.a.k, \"r\": $.pluck(\"s\", \"a\")}"] [doc1])).2.1 =
+      b!"{\"k\": 1, \"r\": {\"a\": {\"k\": 1}, \"s\": \"hello\"}}\n" := by
+  decide +kernel
+
+/-- … non-mutating methods of strings -/
+example : obs (evalProgram expectedRuleTable b!"{ print $ }" [b!"[$.s.length(), $.s.upper(), $.s.split(\"l\")]"] [doc1]) =
+    obs (evalProgram expectedRuleTable b!"BEGINFILE { $ = [$.s.length(), $.s.upper(), $.s.split(\"l\")] } { print $ }" [] [doc1]) ∧
+    (obs (evalProgram expectedRuleTable b!"{ print $ }" [b!"[$.s.length(), $.s.upper(), $.s.split(\"l\")]"] [doc1])).2.1 =
+      b!"5\nHELLO\n[\"he\", \"\", \"o\"]\n" := by
   decide +kernel
 
 /-- sharing (clause c): the root selected by `-r '$.a'` and the `$` assigned by the rule are
